@@ -146,8 +146,13 @@ def _subterms(f: FuncInfo, param: str) -> set[str]:
             d = dotted_of(e.func) or ""
             if d in ("_get_field", "getattr") and e.args and is_root_or_sub(e.args[0]):
                 return True
-            if d in ("reversed", "list", "tuple", "iter", "enumerate", "zip") and e.args:
+            if d in ("reversed", "list", "tuple", "iter", "enumerate", "zip", "sorted") and e.args:
                 return all(is_sub(a) for a in e.args)
+        if isinstance(e, (ast.ListComp, ast.GeneratorExp, ast.SetComp)):
+            # a collection of sub-terms picked from the parameter (`[proto.attribute[i] for i in kept]`)
+            return is_sub(e.elt)
+        if isinstance(e, (ast.List, ast.Tuple)) and e.elts:
+            return all(is_sub(x) for x in e.elts)
         return False
 
     def is_root_or_sub(e) -> bool:
@@ -572,7 +577,17 @@ def rule_r11(ctx):
             if comp is None:
                 continue
             it = comp.generators[0].iter if not isinstance(comp, ast.For) else comp.iter
-            if not any(isinstance(x, ast.Attribute) and x.attr == "attribute" for x in ast.walk(it)):
+            # what is iterated, through the locals it names (a list of the surviving entries computed beforehand)
+            chain, seen_names, work = [], set(), [it]
+            while work and len(chain) < 12:
+                e = work.pop()
+                chain.append(e)
+                for x in ast.walk(e):
+                    if isinstance(x, ast.Name) and x.id not in seen_names and x.id not in f.params:
+                        seen_names.add(x.id)
+                        work += [a.value for a in own_nodes(f.node) if isinstance(a, (ast.Assign, ast.AnnAssign)) and getattr(a, "value", None) is not None
+                                 and any(isinstance(t, ast.Name) and t.id == x.id for t in (a.targets if isinstance(a, ast.Assign) else [a.target]))]
+            if not any(isinstance(x, ast.Attribute) and x.attr == "attribute" for e in chain for x in ast.walk(e)):
                 continue
             n += 1
             if isinstance(comp, ast.For):
@@ -586,7 +601,10 @@ def rule_r11(ctx):
                     return all(by_name(v) for v in t.values)
                 return any(isinstance(x, ast.Attribute) and x.attr == "name" for x in ast.walk(t))
 
-            unique = any(by_name(t) for t in conds) or any(
+            keyed = any(isinstance(x, ast.DictComp) and isinstance(x.key, ast.Attribute) and x.key.attr == "name" for e in chain[1:] for x in ast.walk(e)) and it is not chain[0] or (
+                len(chain) > 1 and any(isinstance(x, ast.DictComp) and isinstance(x.key, ast.Attribute) and x.key.attr == "name" for e in chain[1:] for x in ast.walk(e))
+                and isinstance(it, ast.Name))
+            unique = any(by_name(t) for t in conds) or keyed or any(
                 isinstance(x, ast.Call) and (dotted_of(x.func) or "") in ("dict", "reversed") for x in ast.walk(it)) or isinstance(it, ast.Call) and isinstance(it.func, ast.Attribute) and it.func.attr == "values"
             ctx.check("R11", f"{f.local}: attribute entries are made unique by name before they are deserialized", unique, f, c,
                       f"every entry of `{norm(it)}` is deserialized with the enclosing scopes at hand and only then keyed by name: of two entries with one name "
